@@ -427,7 +427,7 @@ class OptCoordinates(ValueArray, ABC):
         coordinates. Called if the coordinates have been perturbed, making
         these quantities not accurate any more for the new coordinates
         """
-        self._e, self._g, self._h = None, None, None
+        self._e, self._g, self._h, self._h_inv = None, None, None, None
         return None
 
     def copy(self, *args, **kwargs) -> "OptCoordinates":
